@@ -10,6 +10,7 @@ Operations (label tuples):
                          only dispatched by a plain step: no run is opened while one is pending)
   ('pause', a) ('unpause', a) ('cancel', a)   the public calls, from outside
   ('past',)                                   schedule_event(now-0.5, ...) from outside: ValueError, nothing changes
+  ('newenv',)                                 a second Environment is created and used (schedule/pause/unpause/cancel of asset 1)
   ('step', key)                               one real Environment.step() with the tie-break choice `key`
   ('run', d)                                  opens a run of duration d exactly as Environment.run does; until its
                                               TERMINATE fires only ('step', key) is enabled (these cost no depth)
@@ -177,6 +178,8 @@ class EnvWorld(CompWorld):
                     out.append((k, a))
         if 'past' in self.ext:
             out.append(('past',))
+        if 'newenv' in self.ext:
+            out.append(('newenv',))
         if 'step' in self.ext:
             out.extend(self.tie_labels())
         if not any(r[KIND] == 'boom' for r in self.ref.recs):
@@ -206,6 +209,14 @@ class EnvWorld(CompWorld):
                 self._pcu(k, label[1])
             elif k == 'past':
                 self._past()
+            elif k == 'newenv':
+                # another Environment is created (and used a little) next to this one: nothing here may change
+                other = Environment()
+                other.schedule_event(1, 1, EnvAction(self, [0, 0, 0, 'log', 0, None, False, 0]), EventType.FAIL)
+                other.pause_matching_events(1)
+                other.unpause_matching_events(1)
+                other.cancel_matching_events(1)
+                self.facts.append('second_environment')
             elif k == 'run' and label[1] < 0:
                 self._negative_run(label[1])
             elif k == 'run':
